@@ -49,7 +49,7 @@ QUICK = R.tier == 'quick'
 HOST = '127.0.0.1'
 NWORKERS = 8
 QGT = 0.02                       # queue_get_timeout used in most cases (public attribute; default is 2 s)
-PHASE_TIMEOUT = 45.0             # watchdog: one phase of a case
+PHASE_TIMEOUT = 25.0             # watchdog: one phase of a case
 BUDGET = 36.0 if QUICK else 470.0   # no new case is handed out after this many seconds
 
 REQ = ('<?xml version="1.0" encoding="utf-8" ?>\n'
@@ -76,9 +76,12 @@ class CbError(Exception):
     """An exception class of the callback's own."""
 
 
+CB_MARK = 'raised-by-c16-callback'
+
+
 def cb_exception(n):
-    return (ValueError('boom'), queue.Empty(), CbError('x'), queue.Full(),
-            AttributeError("'NoneType' object has no attribute 'task_done'"), KeyError('Id'))[n % 6]
+    return (ValueError(CB_MARK), queue.Empty(CB_MARK), CbError(CB_MARK), queue.Full(CB_MARK),
+            AttributeError(CB_MARK + ": object has no attribute 'task_done'"), KeyError(CB_MARK))[n % 6]
 
 
 # ----------------------------------------------------------------------------------------------------------------
@@ -134,9 +137,9 @@ class Ctl:
         if self.hold and not self.first_entered.is_set():
             self.first_entered.set()
             if self.hold == 'acked':
-                self.release.wait(30)
+                self.release.wait(20)
             else:
-                self.stop_called.wait(30)
+                self.stop_called.wait(20)
                 t_end = time.monotonic() + 0.3
                 while lis.http_started and time.monotonic() < t_end and not self.release.is_set():
                     time.sleep(0.001)
@@ -228,7 +231,7 @@ def classify(iid, status, body):
 
 def post(port, iid, n):
     body = (REQ % dict(id=iid, n=n)).encode('utf-8')
-    conn = http.client.HTTPConnection(HOST, port, timeout=20)
+    conn = http.client.HTTPConnection(HOST, port, timeout=12)
     try:
         conn.request('POST', '/', body, {'Content-Type': 'application/xml; charset=utf-8',
                                          'CIMExport': 'MethodRequest', 'CIMExportMethod': 'ExportIndication',
@@ -245,11 +248,15 @@ def post(port, iid, n):
 def sender(ctl, port, ids, delays, primer):
     for k, iid in enumerate(ids):
         if not (primer and k == 0):
-            ctl.go.wait(30)
+            ctl.go.wait(20)
         if delays[k]:
             time.sleep(delays[k])
         ctl.send[iid] = ctl.tick()
-        st = post(port, iid, k)
+        try:
+            st = post(port, iid, k)
+        except Exception as exc:    # pylint: disable=broad-except
+            st = ('harness', repr(exc)[:200])
+            ctl.violation('harness-error-in-sender', observed=st[1])
         ctl.status[iid] = st
         ctl.resp[iid] = ctl.tick()
         ctl.any_resp.set()
@@ -300,6 +307,27 @@ def bindable(port, reuse=True):
         return False
     finally:
         s.close()
+
+
+def own_socket_on(port):
+    """Does THIS process hold a TCP socket bound to the port (any state but TIME_WAIT)?  None if unknown.
+    Tells a port left behind by the listener from one taken meanwhile by some other process."""
+    try:
+        inodes = set()
+        with open('/proc/net/tcp') as f:
+            for line in list(f)[1:]:
+                fld = line.split()
+                if int(fld[1].rsplit(':', 1)[1], 16) == port and fld[3] != '06':
+                    inodes.add(fld[9])
+        mine = set()
+        for fd in os.listdir('/proc/self/fd'):
+            try:
+                mine.add(os.readlink('/proc/self/fd/' + fd))
+            except OSError:
+                pass
+        return any('socket:[%s]' % i in mine for i in inodes if i != '0')
+    except Exception:               # pylint: disable=broad-except
+        return None
 
 
 def accepting(port):
@@ -402,7 +430,9 @@ class Session:
         lis = self.lis
         if exc is not None:
             msg = str(exc)
-            if isinstance(exc, AttributeError) and "'NoneType' object has no attribute 'task_done'" in msg:
+            if CB_MARK in msg:
+                vid = 'stop-raises-exception-of-a-callback'
+            elif isinstance(exc, AttributeError) and "'NoneType' object has no attribute 'task_done'" in msg:
                 vid = K_TASKDONE
             elif isinstance(exc, AttributeError) and "'NoneType' object has no attribute 'get'" in msg:
                 vid = K_GET
@@ -420,9 +450,11 @@ class Session:
         if left:
             ctl.violation('stop-leaves-thread', where=where, threads=[t.name for t in left])
         if accepting(self.port):
-            ctl.violation('stop-leaves-port-accepting', where=where, port=self.port)
+            if own_socket_on(self.port) is not False:
+                ctl.violation('stop-leaves-port-accepting', where=where, port=self.port)
         elif not bindable(self.port):
-            ctl.violation('stop-leaves-port-bound', where=where, port=self.port)
+            if own_socket_on(self.port) is not False:
+                ctl.violation('stop-leaves-port-bound', where=where, port=self.port)
 
     def after_failed_stop(self):
         """A stop() failed in a known way: the listener is then neither restartable nor stoppable."""
@@ -458,8 +490,11 @@ class Session:
                 self.lis.start()
                 ok = True
             except BaseException as exc:      # pylint: disable=broad-except
-                ctl.violation('restart-raises-' + type(exc).__name__, observed=repr(exc)[:200])
                 ok = False
+                if isinstance(exc, self.pywbem.ListenerPortError) and own_socket_on(self.port) is False:
+                    pass              # some other process took the port meanwhile: nothing to conclude
+                else:
+                    ctl.violation('restart-raises-' + type(exc).__name__, observed=repr(exc)[:200])
         if ok:
             self.failed_stop = None
             self.nsess += 1
@@ -484,7 +519,7 @@ class Session:
                 th.join()
         return ths
 
-    def wait_delivered(self, sess, timeout=30.0):
+    def wait_delivered(self, sess, timeout=12.0):
         """Wait until every indication of the session answered with success has left all callbacks."""
         ctl = self.ctl
         want = {iid for iid, st in ctl.status.items() if ctl.session_of[iid] == sess and st == ('ok',)}
@@ -526,7 +561,7 @@ def check_log(ctl, ses, nsessions):
     # arguments
     for e in enters:
         if e[5] != HOST or e[6] != 'C16_Indication' or e[2] not in ctl.send:
-            ctl.violation('callback-arguments-wrong', id=e[2], host=e[5], classname=e[6])
+            ctl.violation('callback-arguments-wrong', indication=e[2], host=e[5], classname=e[6])
             break
 
     # exactly once / never, registration order, one block per indication
@@ -537,27 +572,27 @@ def check_log(ctl, ses, nsessions):
         got = [c for _, c in per.get(iid, [])]
         if st == ('ok',):
             if not got:
-                ctl.violation('acknowledged-indication-not-delivered', id=iid, session=ctl.session_of[iid])
+                ctl.violation('acknowledged-indication-not-delivered', indication=iid, session=ctl.session_of[iid])
             elif sorted(got) != list(range(ncb)):
                 if len(got) > len(set(got)):
-                    ctl.violation('acknowledged-indication-delivered-more-than-once', id=iid, callbacks=got)
+                    ctl.violation('acknowledged-indication-delivered-more-than-once', indication=iid, callbacks=got)
                 else:
-                    ctl.violation('acknowledged-indication-misses-a-callback', id=iid, callbacks=got)
+                    ctl.violation('acknowledged-indication-misses-a-callback', indication=iid, callbacks=got)
             elif got != list(range(ncb)):
-                ctl.violation('callbacks-not-in-registration-order', id=iid, callbacks=got)
+                ctl.violation('callbacks-not-in-registration-order', indication=iid, callbacks=got)
             else:
                 ps = [p for p, _ in per[iid]]
                 if ps != list(range(ps[0], ps[0] + ncb)):
-                    ctl.violation('deliveries-of-two-indications-interleaved', id=iid)
+                    ctl.violation('deliveries-of-two-indications-interleaved', indication=iid)
             sess = ctl.session_of[iid]
             if got and sess in ctl.stop_ret and max(exits.get(iid, [0])) > ctl.stop_ret[sess]:
-                ctl.violation('delivery-after-stop-returned', id=iid, session=sess)
+                ctl.violation('delivery-after-stop-returned', indication=iid, session=sess)
         elif st[0] == 'cimerr':
             if got:
-                ctl.violation('refused-indication-delivered', id=iid, response=st)
+                ctl.violation('refused-indication-delivered', indication=iid, response=st)
         elif st[0] == 'noresp':
             if len(got) > len(set(got)):
-                ctl.violation('unanswered-indication-delivered-more-than-once', id=iid, callbacks=got)
+                ctl.violation('unanswered-indication-delivered-more-than-once', indication=iid, callbacks=got)
 
     # one consumer thread per start()..stop() round, not a thread of the harness
     for sess in range(1, nsessions + 1):
@@ -579,15 +614,15 @@ def check_log(ctl, ses, nsessions):
     for iid, st in sorted(status.items()):
         sess = ctl.session_of[iid]
         if st[0] in ('http', 'badxml', 'wrongid'):
-            ctl.violation('unexpected-response-' + st[0], id=iid, response=repr(st)[:200])
+            ctl.violation('unexpected-response-' + st[0], indication=iid, response=repr(st)[:200])
         elif st[0] == 'noresp':
             if sess not in ctl.stop_call or ctl.resp[iid] < ctl.stop_call[sess]:
-                ctl.violation('request-not-answered-while-listening', id=iid, response=st)
+                ctl.violation('request-not-answered-while-listening', indication=iid, response=st)
         elif st[0] == 'cimerr':
             if st[1] != '1':
-                ctl.violation('refusal-with-unexpected-cim-status', id=iid, response=st)
+                ctl.violation('refusal-with-unexpected-cim-status', indication=iid, response=st)
             elif bound == 0:
-                ctl.violation('refusal-with-unbounded-queue', id=iid, response=st)
+                ctl.violation('refusal-with-unbounded-queue', indication=iid, response=st)
 
     # capacity: ticket-interval bounds on what was in the queue while a request was handled
     if bound > 0:
@@ -602,14 +637,14 @@ def check_log(ctl, ses, nsessions):
                          and sy[0] in ('ok', 'noresp') and ctl.send[y] < ctl.resp[x]
                          and (y not in first_enter or first_enter[y] > ctl.send[x])]
                 if len(maybe) < bound:
-                    ctl.violation('refused-although-queue-cannot-have-been-full', id=x, bound=bound,
+                    ctl.violation('refused-although-queue-cannot-have-been-full', indication=x, bound=bound,
                                   possibly_queued=maybe)
             elif st == ('ok',):
                 surely = [y for y, sy in status.items() if y != x and ctl.session_of[y] == sess
                           and sy == ('ok',) and ctl.resp[y] < ctl.send[x]
                           and y in first_enter and prev_exit[y] > ctl.resp[x]]
                 if len(surely) >= bound:
-                    ctl.violation('accepted-although-queue-must-have-been-full', id=x, bound=bound,
+                    ctl.violation('accepted-although-queue-must-have-been-full', indication=x, bound=bound,
                                   surely_queued=surely)
 
 
@@ -633,7 +668,7 @@ def run_grid_case(ctl, ports, case, rnd):
     ctl.set_phase('send')
     if ctl.hold:
         ths = ses.run_senders(1, nsend, nind, rnd, primer=True, wait=False)
-        if not ctl.first_entered.wait(30):
+        if not ctl.first_entered.wait(12):
             ctl.violation('first-indication-never-reaches-callback')
         ctl.go.set()
         for th in ths:
@@ -641,7 +676,7 @@ def run_grid_case(ctl, ports, case, rnd):
     elif scen == 'during-send':
         ctl.go.set()
         ths = ses.run_senders(1, nsend, nind, rnd, wait=False)
-        ctl.any_resp.wait(30)
+        ctl.any_resp.wait(12)
     else:
         ctl.go.set()
         ths = ses.run_senders(1, nsend, nind, rnd)
@@ -846,6 +881,7 @@ def run_case(case_no, case, seed, ports):
         sys.setswitchinterval(0.005)
         lis = ctl.listener
         if lis is not None and (lis.http_started or lis.ind_queue_exists()):
+            ctl.set_phase('cleanup-stop')
             try:
                 lis.stop()
             except BaseException:   # pylint: disable=broad-except
